@@ -164,9 +164,50 @@ def main(chk):
                 victims.append(r.choice([v for v in (0, 1) if v not in victims] or [0]))
             victims = list(dict.fromkeys(victims))
         special = []
+        # a file whose resolved host path is as long as the host allows (PATH_MAX - 1 characters), and neighbours of that length
+        longs = []
+        if r.random() < 0.5:
+            comps = []
+            room = 4095 - len(T) - 1 - 2      # "<T>/" + components + "/f"
+            while room > 0:
+                n = min(250, room - 1) if room > 251 else room
+                if n <= 0:
+                    break
+                comps.append('D' * n)
+                room -= n + 1
+            deep = '/'.join(comps)
+            try:
+                os.makedirs(os.path.join(T, deep), exist_ok=True)
+                for fname, tot in (('f', 4095), ('ff', 4096)):
+                    full = os.path.join(T, deep, fname)
+                    if len(full) <= 4095:
+                        open(full, 'w').write('deep\n')
+                longs = [deep + '/f', deep + '/ff', deep[1:] + '/f', deep]
+            except OSError:
+                longs = []
         for step in range(r.randint(3, 14)):
             x = r.random()
-            if victims and x > 0.88:
+            if longs and x > 0.8 and x <= 0.88:
+                gp = longs.pop(0)
+                full = T + '/' + gp
+                g.poke(0xC000, gp.encode())
+                g.poke(0x6100, b'\xff\xff\xff\xff')
+                isdir_l = os.path.isdir(full) if len(full) <= 4095 else False
+                exists = len(full) <= 4095 and os.path.exists(full)
+                idx = g.call('path_open', [first_fd, 0, 0xC000, len(gp), 0, (1 << 1), (1 << 1), 0, 0x6100])
+                di = g.dump(0x6100, 4)
+                if exists:
+                    checks.append(('open', di, (nextfd, frozenset(live)), idx))
+                    live.add(nextfd)
+                    opened.append((nextfd, isdir_l))
+                    nextfd += 1
+                else:
+                    checks.append(('open-fail', di, len(full), idx))
+                    # the number it would have been given was not issued: it must behave as never issued right away
+                    for name in r.sample(ENTRY, 6):
+                        idx2 = dead_calls(g, nextfd, r, name)
+                        checks.append(('dead', idx2, EBADF, (name, g.abi, 'never-issued-after-failed-open', nextfd)))
+            elif victims and x > 0.88:
                 fd = victims.pop()
                 idx = g.call('fd_close', [fd])
                 checks.append(('errno', idx, 0, 'fd_close(stdio)' if fd < 3 else 'fd_close(preopen)'))
@@ -278,6 +319,11 @@ def main(chk):
                 seen_classes.append(('stdin',))
                 if raw[:len(exp)] != exp:
                     res.append(('C13:stdio:stdin', 'history %d: fd_read(0) delivered %r, expected %r' % (k, raw[:len(exp)], exp), files))
+            elif kind == 'open-fail':
+                rc = wasih.call_result(out[detail])
+                seen_classes.append(('open-fail',))
+                if rc == 0:
+                    res.append(('C13:path_open:long-path-accepted', 'history %d: path_open of a %d-character host path succeeded' % (k, exp), files))
             elif kind == 'open':
                 want_fd, liveset = exp
                 rc = wasih.call_result(out[detail])
